@@ -4,6 +4,11 @@ From Verif Require Import C12.Impl C12.Spec C12.Model.
 Import ListNotations.
 Open Scope Z_scope.
 
+(* Everything below is about an instance constructed with an arbitrary custom filter table FT
+   (Ribosome(filters=FT)) whose names are identifiers. *)
+Section WithFilterTable.
+Context {FT : FTable} (HFT : ftable_ok FT = true).
+
 (* ------------------------------------------------------------------ *)
 (* A. scan                                                              *)
 
@@ -194,7 +199,7 @@ Definition leaf_sc (l : leaf) : bool :=
   | LText s => nobrace s
   | LVar x | LOpt x | LInc x => word x
   | LDot => true
-  | LPipe x w => word x && nonempty w && nobrace w && (negb (is_filter w) || modelled_filter w)
+  | LPipe x w => word x && nonempty w && nobrace w
   end.
 
 Lemma clean_nobrace : forall s, clean s = true -> nobrace s = true.
@@ -205,8 +210,8 @@ Proof. unfold clean. intros s H. apply andb_prop in H. tauto. Qed.
 Lemma wf_sc : forall l, leaf_wf l = true -> leaf_sc l = true.
 Proof.
   intros [s|x| |x|x w|x] H; cbn in *; auto using clean_nobrace.
-  apply andb_prop in H. destruct H as [H Hf]. apply andb_prop in H. destruct H as [H Hc].
-  rewrite H, Hf, (clean_nobrace w Hc). reflexivity.
+  apply andb_prop in H. destruct H as [H Hc].
+  rewrite H, (clean_nobrace w Hc). reflexivity.
 Qed.
 
 (* what the scanners need to know about a leaf: brace-free text, or one construct
@@ -231,7 +236,7 @@ Proof.
   - exists 63, x. split; [reflexivity|]. split; [unfold LB; lia|].
     apply word_forall in H. apply Forall_forall. intros c Hc. rewrite forallb_forall in H.
     apply H in Hc. apply is_word_facts in Hc. unfold LB. lia.
-  - apply andb_prop in H. destruct H as [H Hf]. apply andb_prop in H. destruct H as [H Hnb].
+  - apply andb_prop in H. destruct H as [H Hnb].
     apply andb_prop in H. destruct H as [H Hne].
     destruct (word_cons x H) as (x0 & x' & -> & Hx0 & Hx').
     exists x0, (x' ++ 124 :: w). split.
@@ -417,10 +422,10 @@ Lemma pr_cons_pipe : forall x0 x' w s,
 Proof. intros. rewrite pr_pipe. reflexivity. Qed.
 
 Lemma pipe_wf : forall x w, leaf_sc (LPipe x w) = true ->
-  word x = true /\ nonempty w = true /\ nobrace w = true /\ (negb (is_filter w) || modelled_filter w = true).
+  word x = true /\ nonempty w = true /\ nobrace w = true /\ True.
 Proof.
   intros x w H. cbn [leaf_sc] in H.
-  apply andb_prop in H. destruct H as [H Hf]. apply andb_prop in H. destruct H as [H Hnb].
+  apply andb_prop in H. destruct H as [H Hnb].
   apply andb_prop in H. destruct H as [H Hne]. auto.
 Qed.
 
@@ -984,27 +989,29 @@ Proof.
   destruct Hc as (a & <- & Ha). apply Hf. apply (in_nobrace s a H Ha).
 Qed.
 
-Lemma apply_filter_nobrace : forall w v s,
-  nobrace (str_value v) = true -> apply_filter w v = inl s -> nobrace s = true.
+Lemma ftable_lookup_word : forall (T : ftable) w cf, ftable_ok T = true -> lookup T w = Some cf ->
+  nonempty w = true /\ forallb is_word w = true.
 Proof.
-  intros w v s Hv H. unfold apply_filter in H.
-  destruct (str_eqb w F_UPPER).
-  { inversion H; subst. apply map_nobrace; auto. intros c Hc. unfold up_char.
-    destruct ((97 <=? c) && (c <=? 122)) eqn:E; lia. }
-  destruct (str_eqb w F_LOWER).
-  { inversion H; subst. apply map_nobrace; auto. intros c Hc. unfold low_char.
-    destruct ((65 <=? c) && (c <=? 90)) eqn:E; lia. }
-  destruct (str_eqb w F_TRIM).
-  { inversion H; subst. apply strip_nobrace; auto. }
-  destruct (str_eqb w F_LENGTH); [|discriminate].
-  destruct v; inversion H; subst; apply dec_nobrace.
+  induction T as [|[k u] T IH]; cbn [lookup ftable_ok forallb fst]; intros w cf H L; [discriminate|].
+  apply andb_prop in H. destruct H as [Hk HT].
+  destruct (str_eqb k w) eqn:E.
+  - apply str_eqb_eq in E. subst k. apply andb_prop in Hk. tauto.
+  - eapply IH; eauto.
+Qed.
+
+Lemma is_builtin_word : forall w, is_builtin w = true -> nonempty w = true /\ forallb is_word w = true.
+Proof.
+  intros w H. unfold is_builtin in H. apply existsb_exists in H. destruct H as (f & Hf & E).
+  apply str_eqb_eq in E. subst f. unfold FILTERS in Hf.
+  repeat (destruct Hf as [<-|Hf]; [split; reflexivity|]). destruct Hf.
 Qed.
 
 Lemma is_filter_word : forall w, is_filter w = true -> forallb is_word w = true.
 Proof.
-  intros w H. unfold is_filter in H. apply existsb_exists in H. destruct H as (f & Hf & E).
-  apply str_eqb_eq in E. subst f. unfold FILTERS in Hf.
-  repeat (destruct Hf as [<-|Hf]; [reflexivity|]). destruct Hf.
+  intros w H. unfold is_filter in H. apply orb_prop in H. destruct H as [H|H].
+  - apply is_builtin_word in H. tauto.
+  - unfold bound in H. destruct (lookup (custom_filters : ftable) w) as [cf|] eqn:L; [|discriminate].
+    apply (ftable_lookup_word _ w cf HFT L).
 Qed.
 
 (* ------------------------------------------------------------------ *)
@@ -1229,7 +1236,7 @@ Proof.
   apply m_lit_starts; auto.
   eapply (scan_lits_nomatch (m_lit idz p) (print_leaves ls) s); eauto.
   rewrite (scan_leaves _ (m_lit idz p) act_none Ho ls s H). f_equal.
-  clear. induction ls as [|l ls IH]; [reflexivity|].
+  clear - HFT. induction ls as [|l ls IH]; [reflexivity|].
   cbn [flat_map]. rewrite print_leaves_cons1, map_app, IH. reflexivity.
 Qed.
 
@@ -1713,7 +1720,7 @@ Lemma lookup_items_ok : forall c x items, ctx_ok c = true ->
 Proof.
   intros c x items Hc L. unfold lookup_seq in L. destruct (lookup c x) as [v|] eqn:Lv; [|discriminate].
   apply lookup_ok in Lv; auto. unfold value_ok in Lv. apply andb_prop in Lv. destruct Lv as [_ Lv].
-  rewrite L in Lv. exact Lv.
+  rewrite L in Lv. apply andb_prop in Lv. tauto.
 Qed.
 
 Lemma pass_each_nodes : forall c t, ctx_ok c = true -> well_formed t = true -> if_free t ->
@@ -1820,10 +1827,167 @@ Proof.
   destruct Hc as (a & <- & Ha). apply Hf. apply (nosent_in s a H Ha).
 Qed.
 
-Lemma apply_filter_nosent : forall w v s,
-  nosent (str_value v) = true -> apply_filter w v = inl s -> nosent s = true.
+(* --- the filters title / json / repr ------------------------------------ *)
+Lemma hex_digit_small : forall n, 0 <= n < 16 -> hex_digit n < 128.
+Proof. intros n H. unfold hex_digit. destruct (n <? 10) eqn:E; lia. Qed.
+
+Lemma hex4_small : forall c a, In a (hex4 c) -> a < 128.
 Proof.
-  intros w v s Hv H. unfold apply_filter in H.
+  intros c a H. unfold hex4 in H.
+  pose proof (Z.mod_pos_bound (c / 4096) 16 ltac:(lia)).
+  pose proof (Z.mod_pos_bound (c / 256) 16 ltac:(lia)).
+  pose proof (Z.mod_pos_bound (c / 16) 16 ltac:(lia)).
+  pose proof (Z.mod_pos_bound c 16 ltac:(lia)).
+  cbn [In] in H.
+  destruct H as [<-|[<-|[<-|[<-|[<-|[<-|[]]]]]]]; try lia; apply hex_digit_small; auto.
+Qed.
+
+Lemma json_char_small : forall c a, In a (json_char c) -> a < 128.
+Proof.
+  intros c a H. unfold json_char in H.
+  repeat match type of H with
+         | In _ (if ?b then _ else _) => destruct b eqn:?
+         end;
+    try (cbn [In] in H; intuition lia).
+  - apply hex4_small in H. exact H.
+  - apply in_app_or in H. destruct H as [H|H]; apply hex4_small in H; exact H.
+Qed.
+
+Lemma json_str_small : forall s a, In a (json_str s) -> a < 128.
+Proof.
+  intros s a H. unfold json_str in H. destruct H as [<-|H]; [lia|].
+  apply in_app_or in H. destruct H as [H|[<-|[]]]; [|lia].
+  apply in_flat_map in H. destruct H as (c & _ & H). eapply json_char_small; eauto.
+Qed.
+
+Lemma json_str_nosent : forall s, nosent (json_str s) = true.
+Proof. intros s. apply small_nosent. intros c Hc. apply json_str_small in Hc. lia. Qed.
+
+Lemma join_in : forall sep l a, In a (join sep l) -> In a sep \/ exists x, In x l /\ In a x.
+Proof.
+  intros sep l. induction l as [|x l IH]; intros a H; [destruct H|].
+  destruct l as [|y l].
+  - cbn in H. right. exists x. split; [left; reflexivity|exact H].
+  - change (join sep (x :: y :: l)) with (x ++ sep ++ join sep (y :: l)) in H.
+    apply in_app_or in H. destruct H as [H|H].
+    + right. exists x. split; [left; reflexivity|exact H].
+    + apply in_app_or in H. destruct H as [H|H]; [left; exact H|].
+      destruct (IH a H) as [H1|(z & Hz & Ha)]; [left; exact H1|].
+      right. exists z. split; [right; exact Hz|exact Ha].
+Qed.
+
+Lemma json_dict_nosent : forall kvs, nosent (json_dict kvs) = true.
+Proof.
+  intros kvs. apply small_nosent. intros a H. unfold json_dict in H.
+  apply in_app_or in H. destruct H as [[<-|[]]|H]; [unfold LB; lia|].
+  apply in_app_or in H. destruct H as [H|[<-|[]]]; [|unfold RB; lia].
+  apply join_in in H. destruct H as [[<-|[<-|[]]]|(x & Hx & Ha)]; try lia.
+  apply in_map_iff in Hx. destruct Hx as (kv & <- & _).
+  apply in_app_or in Ha. destruct Ha as [Ha|Ha]; [apply json_str_small in Ha; lia|].
+  apply in_app_or in Ha. destruct Ha as [[<-|[<-|[]]]|Ha]; try lia.
+  apply json_str_small in Ha. lia.
+Qed.
+
+Lemma json_item_nosent : forall it, item_json_ok it = true -> nosent (json_item it) = true.
+Proof.
+  intros it H. destruct it as [s|kvs|z|b| |s r j]; cbn [json_item].
+  - apply json_str_nosent.
+  - apply json_dict_nosent.
+  - apply dec_nosent.
+  - destruct b; reflexivity.
+  - reflexivity.
+  - exact H.
+Qed.
+
+Lemma json_seq_nosent : forall l, forallb item_json_ok l = true ->
+  nosent ([91] ++ join [44; 32] (map json_item l) ++ [93]) = true.
+Proof.
+  intros l H. apply nosent_app; [reflexivity|]. apply nosent_app; [|reflexivity].
+  apply in_nosent. intros a Ha. apply join_in in Ha.
+  destruct Ha as [[<-|[<-|[]]]|(x & Hx & Ha)]; try (unfold SH_OPEN, SH_CLOSE; lia).
+  apply in_map_iff in Hx. destruct Hx as (it & <- & Hit).
+  rewrite forallb_forall in H. apply (nosent_in _ a (json_item_nosent it (H it Hit)) Ha).
+Qed.
+
+Lemma json_value_nosent : forall v, value_ok v = true -> nosent (json_value v) = true.
+Proof.
+  intros v H. unfold value_ok in H. apply andb_prop in H. destruct H as [Hs Hl].
+  destruct v as [s|z|b|l| |s t|l]; cbn [json_value]; cbn [seq_of] in Hl.
+  - apply json_str_nosent.
+  - apply dec_nosent.
+  - destruct b; reflexivity.
+  - apply andb_prop in Hl. apply json_seq_nosent. tauto.
+  - reflexivity.
+  - exact Hs.
+  - apply andb_prop in Hl. apply json_seq_nosent. tauto.
+Qed.
+
+Lemma repr_char_in : forall q c a, q < 128 -> In a (repr_char q c) -> a < 57344 \/ (a = c /\ a <> 57344 /\ a <> 57345).
+Proof.
+  intros q c a Hq H. unfold repr_char in H.
+  repeat match type of H with
+         | In _ (if ?b then _ else _) => destruct b eqn:?
+         end; cbn [In] in H.
+  1-5: intuition lia.
+  - left. assert (0 <= c mod 16 < 16) by (apply Z.mod_pos_bound; lia).
+    assert (c / 16 < 10) by (apply Z.div_lt_upper_bound; lia).
+    destruct H as [<-|[<-|[<-|[<-|[]]]]]; try lia; unfold hex_digit.
+    + destruct (c / 16 <? 10) eqn:E; lia.
+    + destruct (c mod 16 <? 10) eqn:E; lia.
+  - left.
+    assert (0 <= c mod 16 < 16) by (apply Z.mod_pos_bound; lia).
+    assert (0 <= (c / 16) mod 16 < 16) by (apply Z.mod_pos_bound; lia).
+    assert (0 <= (c / 256) mod 16 < 16) by (apply Z.mod_pos_bound; lia).
+    assert (c / 4096 < 16) by (apply Z.div_lt_upper_bound; lia).
+    assert (0 <= c / 4096) by (apply Z.div_pos; lia).
+    destruct H as [<-|[<-|[<-|[<-|[<-|[<-|[]]]]]]]; try lia;
+      match goal with |- hex_digit ?n < _ => pose proof (hex_digit_small n ltac:(lia)); lia end.
+  - right. destruct H as [<-|[]]. split; [reflexivity|]. lia.
+Qed.
+
+Lemma py_repr_nosent : forall s, nosent (py_repr s) = true.
+Proof.
+  intros s. apply in_nosent. intros a H. unfold py_repr in H.
+  set (q := if existsb (Z.eqb 39) s && negb (existsb (Z.eqb 34) s) then 34 else 39) in H.
+  assert (Hq : q < 128) by (subst q; destruct (existsb (Z.eqb 39) s && negb (existsb (Z.eqb 34) s)); lia).
+  unfold SH_OPEN, SH_CLOSE.
+  destruct H as [<-|H]; [lia|]. apply in_app_or in H. destruct H as [H|[<-|[]]]; [|lia].
+  apply in_flat_map in H. destruct H as (c & _ & H).
+  destruct (repr_char_in q c a Hq H) as [H1|(_ & H1 & H2)]; lia.
+Qed.
+
+Lemma repr_value_nosent : forall v, nosent (str_value v) = true -> nosent (repr_value v) = true.
+Proof. intros v H. destruct v; cbn [repr_value]; auto. apply py_repr_nosent. Qed.
+
+Lemma title_go_in : forall s prev a, In a (title_go prev s) ->
+  exists c, In c s /\ (a = low_char c \/ a = up_char c).
+Proof.
+  induction s as [|c s IH]; intros prev a H; [destruct H|].
+  cbn [title_go] in H. destruct H as [<-|H].
+  - exists c. split; [left; reflexivity|]. destruct prev; auto.
+  - destruct (IH _ _ H) as (d & Hd & E). exists d. split; [right; exact Hd|exact E].
+Qed.
+
+Lemma title_nosent : forall s, nosent s = true -> nosent (title s) = true.
+Proof.
+  intros s H. apply in_nosent. intros a Ha. unfold title in Ha.
+  apply title_go_in in Ha. destruct Ha as (c & Hc & E).
+  destruct (nosent_in s c H Hc) as [H1 H2]. unfold low_char, up_char, SH_OPEN, SH_CLOSE in *.
+  destruct ((65 <=? c) && (c <=? 90)) eqn:E1; destruct ((97 <=? c) && (c <=? 122)) eqn:E2; lia.
+Qed.
+
+(* the result of a built-in filter on an admissible value is sentinel-free: shielding and
+   unshielding it gives it back unchanged (json / repr even escape the sentinels) *)
+Lemma len_filter_nosent : forall v s, len_filter v = inl s -> nosent s = true.
+Proof. intros v s H. destruct v; inversion H; subst; apply dec_nosent. Qed.
+
+Lemma builtin_filter_nosent : forall w v s,
+  value_ok v = true -> builtin_filter w v = inl s -> nosent s = true.
+Proof.
+  intros w v s Hok H.
+  assert (Hv : nosent (str_value v) = true).
+  { unfold value_ok in Hok. apply andb_prop in Hok. tauto. }
+  unfold builtin_filter in H.
   destruct (str_eqb w F_UPPER).
   { inversion H; subst. apply map_nosent; auto. intros c Hc. unfold up_char, SH_OPEN, SH_CLOSE in *.
     destruct ((97 <=? c) && (c <=? 122)) eqn:E; lia. }
@@ -1832,8 +1996,39 @@ Proof.
     destruct ((65 <=? c) && (c <=? 90)) eqn:E; lia. }
   destruct (str_eqb w F_TRIM).
   { inversion H; subst. apply strip_nosent; auto. }
-  destruct (str_eqb w F_LENGTH); [|discriminate].
-  destruct v; inversion H; subst; apply dec_nosent.
+  destruct (str_eqb w F_LENGTH).
+  { eapply len_filter_nosent; eauto. }
+  destruct (str_eqb w F_TITLE).
+  { inversion H; subst. apply title_nosent; auto. }
+  destruct (str_eqb w F_JSON).
+  { inversion H; subst. apply json_value_nosent; auto. }
+  inversion H; subst. apply repr_value_nosent; auto.
+Qed.
+
+Lemma apply_custom_nosent : forall cf v s,
+  nosent (str_value v) = true -> apply_custom cf v = inl s -> nosent s = true.
+Proof.
+  intros cf v s Hv H. destruct cf; cbn [apply_custom] in H.
+  - inversion H; subst. apply map_nosent; auto. intros c Hc.
+    unfold paren_char, LB, RB, SH_OPEN, SH_CLOSE in *.
+    destruct (c =? 123) eqn:E1; [lia|]. destruct (c =? 125) eqn:E2; lia.
+  - inversion H; subst. apply in_nosent. intros c Hc. apply in_rev in Hc.
+    apply (nosent_in _ c Hv Hc).
+  - injection H as <-. apply (nosent_app K_OPEN (str_value v ++ K_CLOSE)); [reflexivity|].
+    apply (nosent_app (str_value v) K_CLOSE); [exact Hv|reflexivity].
+  - inversion H; subst. auto.
+  - eapply len_filter_nosent; eauto.
+Qed.
+
+(* the result of a filter on an admissible value is sentinel-free: shielding and unshielding
+   it gives it back unchanged (json / repr even escape the sentinels) *)
+Lemma apply_filter_nosent : forall w v s,
+  value_ok v = true -> apply_filter w v = inl s -> nosent s = true.
+Proof.
+  intros w v s Hok H. unfold apply_filter in H.
+  destruct (lookup (custom_filters : ftable) w) as [cf|].
+  - eapply apply_custom_nosent; eauto. unfold value_ok in Hok. apply andb_prop in Hok. tauto.
+  - eapply builtin_filter_nosent; eauto.
 Qed.
 
 (* the reference-side reading of a leaf of the partially rendered text *)
@@ -2513,7 +2708,7 @@ Proof.
     + reflexivity.
   - destruct Hg as [Hwf|(v & E & _)]; [|discriminate].
     assert (Hw : nosent w = true /\ word x = true).
-    { cbn [leaf_wf] in Hwf. apply andb_prop in Hwf. destruct Hwf as [Hwf _].
+    { cbn [leaf_wf] in Hwf.
       apply andb_prop in Hwf. destruct Hwf as [Hwf Hcl]. apply andb_prop in Hwf.
       destruct Hwf as [Hx _]. auto using clean_nosent. }
     destruct Hw as [Hw Hx].
@@ -2528,7 +2723,7 @@ Proof.
       * pose proof (lookup_nosent c x v Hc L) as Hv.
         destruct (apply_filter w v) as [s|e] eqn:A; inversion H; subst.
         split. { split; [|exact I]. intros v' Hv' _. inversion Hv'; subst. eauto. }
-        cbn. apply unshield_shield. eapply apply_filter_nosent; eauto.
+        cbn. apply unshield_shield. eapply apply_filter_nosent; [eapply lookup_ok; eauto|eauto].
       * inversion H; subst. split. { split; [|exact I]. intros v' Hv'. discriminate. }
         cbn [def_leaf]. rewrite F. exact Hverb.
     + split. { split; [|exact I]. intros v' _ Hf. discriminate. }
@@ -3248,7 +3443,7 @@ Proof.
                   snd (tsub p f (map TLit P ++ ts)) = [] /\
                   fst (tsub p f (map TLit P ++ ts)) =
                   match fst (tsub p f ts) with inl y => inl (P ++ y) | inr e => inr e end).
-      { clear. intros P ts H. induction P as [|a P IHP]; cbn [map app tsub].
+      { clear - HFT. intros P ts H. induction P as [|a P IHP]; cbn [map app tsub].
         - split; auto. destruct (fst (tsub p f ts)); reflexivity.
         - destruct IHP as [I1 I2]. destruct (tsub p f (map TLit P ++ ts)) as [r lg].
           cbn [fst snd] in *. subst lg. split; auto. rewrite I2.
@@ -3443,7 +3638,7 @@ Proof.
                            let '(res', lg') := replace_default_t res (erase g0) new in
                            (res', lg ++ lg')) ms (res, []) in
               snd r = [] /\ Inv (fst r)).
-  { clear. induction ms as [|[[x d] g0] ms IH]; intros res HF HI; [cbn; auto|].
+  { clear - HFT. induction ms as [|[[x d] g0] ms IH]; intros res HF HI; [cbn; auto|].
     inversion HF as [|? ? [Hg Hsc] HF']; subst. cbn [fst snd] in *. cbn [fold_left].
     destruct (is_filter d); [apply IH; auto|].
     destruct HI as (tls & -> & Hok). unfold replace_default_t. rewrite Hg.
@@ -3624,7 +3819,7 @@ Lemma clean_lits : forall {M} p (f : M -> tstr -> (tstr + error) * list failure)
 Proof.
   intros M p f P HI.
   assert (E : tsub p f (map TLit P) = (inl P, [])).
-  { clear. induction P as [|a P IH]; cbn [map tsub]; [reflexivity|]. rewrite IH. reflexivity. }
+  { clear - HFT. induction P as [|a P IH]; cbn [map tsub]; [reflexivity|]. rewrite IH. reflexivity. }
   rewrite E. split; auto. intros Y HY. inversion HY; subst. exact HI.
 Qed.
 
@@ -3832,3 +4027,51 @@ Proof.
       apply str_eqb_eq in E2. subst k. destruct (str_eqb n m) eqn:E3; [|reflexivity].
       apply str_eqb_eq in E3. subst m. rewrite str_eqb_refl in E. discriminate.
 Qed.
+
+(* ------------------------------------------------------------------ *)
+(* a filtered variable renders the filter applied to the RAW bound value *)
+Lemma is_filter_nonempty : forall w, is_filter w = true -> nonempty w = true.
+Proof.
+  intros w H. unfold is_filter in H. apply orb_prop in H. destruct H as [H|H].
+  - apply is_builtin_word in H. tauto.
+  - unfold bound in H. destruct (lookup (custom_filters : ftable) w) as [cf|] eqn:L; [|discriminate].
+    apply (ftable_lookup_word _ w cf HFT L).
+Qed.
+
+Lemma filter_leaf_wf : forall x f, word x = true -> is_filter f = true ->
+  well_formed [NLeaf (LPipe x f)] = true.
+Proof.
+  intros x f Hx Hf.
+  pose proof (is_filter_nonempty f Hf) as Hne. pose proof (is_filter_word f Hf) as Hw.
+  assert (Hwd : word f = true) by (unfold word; rewrite Hne, Hw; reflexivity).
+  cbn [well_formed forallb node_wf leaf_wf]. rewrite Hx, Hne. unfold clean.
+  rewrite (word_nobrace f Hwd), (word_nosent f Hw). reflexivity.
+Qed.
+
+Lemma filter_leaf_spec : forall strict T c x f v r,
+  is_filter f = true -> lookup c x = Some v -> apply_filter f v = inl r ->
+  render_spec strict T c [NLeaf (LPipe x f)] = SOk r [].
+Proof.
+  intros strict T c x f v r Hf L A. unfold render_spec.
+  cbn [render_tpl render_nodes map sconcat fold_right render_node render_leaf].
+  rewrite Hf, L, A. cbn [sapp app]. rewrite app_nil_r. reflexivity.
+Qed.
+
+Theorem filter_raw_value_proof : forall strict T c x f v r,
+  ctx_ok c = true ->
+  forallb (fun nt => well_formed (snd nt)) T = true ->
+  (strict = true -> Forall (fun nt => out_bound c (snd nt)) T) ->
+  word x = true -> is_filter f = true ->
+  lookup c x = Some v -> apply_filter f v = inl r ->
+  exists w, render_impl strict (print_templates T) c (print [NLeaf (LPipe x f)]) = Ok r w.
+Proof.
+  intros strict T c x f v r Hc HT HTb Hx Hf L A.
+  pose proof (filter_leaf_wf x f Hx Hf) as Hwf.
+  pose proof (filter_leaf_spec strict T c x f v r Hf L A) as Hs.
+  destruct strict.
+  - eapply strict_loop_vars_proof; eauto. intros y Hy. destruct Hy.
+  - eapply render_eq_proof; eauto.
+Qed.
+
+End WithFilterTable.
+Arguments replay {FT}.
